@@ -82,32 +82,22 @@ func dump(st *store.ImmuStore) {
 func main() {
 	dir, _ := os.MkdirTemp("", "c02probe")
 	defer os.RemoveAll(dir)
-	st, err := store.Open(dir, opts())
+	o := opts().WithEmbeddedValues(true)
+	st, err := store.Open(dir, o)
 	if err != nil {
 		panic(err)
 	}
 	pre(st, "k1", "v1")
 	pre(st, "k2", "v2")
-	fmt.Println(st.AllowCommitUpto(2))
-	pre(st, "A", "discarded")
-	fmt.Println(st.DiscardPrecommittedTxsSince(3))
-	pre(st, "B", "second-3")
-	dump(st)
-	fmt.Println("close", st.Close())
-	st, err = store.Open(dir, opts())
+	pre(st, "k3", "v3")
+	st.Close()
+	st, err = store.Open(dir, opts().WithEmbeddedValues(true))
 	if err != nil {
 		panic(err)
 	}
-	dump(st)
-	fmt.Println("allow3", st.AllowCommitUpto(3))
+	fmt.Println("after reopen precommitted", st.LastPrecommittedTxID())
 	pre(st, "k4", "v4")
-	fmt.Println("allow4", st.AllowCommitUpto(4))
-	dump(st)
+	h, err := st.ReadTxHeader(1, true, false)
+	fmt.Printf("%+v %v\n", h, err)
 	st.Close()
-	st, err = store.Open(dir, opts())
-	fmt.Println("reopen", err)
-	if err == nil {
-		dump(st)
-		st.Close()
-	}
 }
